@@ -4,10 +4,12 @@
 (* frame condition FrameProp on every transition.                            *)
 EXTENDS HeaderMap
 
-\* ordinary names in two spellings, every special name of both header kinds
+\* PART 1: ordinary multi-valued names in two spellings next to the names whose
+\* operations delete or rewrite OTHER stored fields (Connection, Content-Length,
+\* Transfer-Encoding); PART 2: the remaining special names, cookies and trailers.
+PART == @@PART@@
 MCSpellings ==
-  IF Norm THEN {"X-A", "x-a", "X-B", "Content-Type", "content-length", "Connection", "Transfer-Encoding",
-                "Trailer", "Host", "Server", "Cookie", "Set-Cookie"}
-  ELSE {"X-A", "x-a", "X-B", "Content-Type", "Content-Length", "Connection", "Transfer-Encoding",
-        "Trailer", "Host", "Server", "Cookie", "Set-Cookie"}
+  IF PART = 1
+  THEN {"X-A", "x-a", "X-B", "Connection", IF Norm THEN "content-length" ELSE "Content-Length", "Transfer-Encoding"}
+  ELSE {"X-A", "Content-Type", "Trailer", "Host", "Server", "Cookie", "Set-Cookie", "X-B"}
 =============================================================================
